@@ -110,7 +110,7 @@ var numLit = func(s string) bool {
 func spellLit(s string, style int) (string, bool) {
 	switch style {
 	case StyleBare:
-		if numLit(s) || (identOK(s) && !isKeywordish(s)) {
+		if numLit(s) || bareSelectorOK(s) {
 			return s, true
 		}
 		return "", false
@@ -129,8 +129,19 @@ func spellLit(s string, style int) (string, bool) {
 	}
 }
 
-// bare identifiers that would be read as keywords in value position are avoided by the printer
-func isKeywordish(s string) bool { return false }
+// bareSelectorOK: ident(.ident|.digits)* - an unquoted value of selector shape denotes exactly its spelled text
+func bareSelectorOK(s string) bool {
+	parts := strings.Split(s, ".")
+	if !identOK(parts[0]) {
+		return false
+	}
+	for _, p := range parts[1:] {
+		if !identOK(p) && !digitsOK(p) {
+			return false
+		}
+	}
+	return true
+}
 
 type printer struct {
 	o    rendOpts
@@ -453,8 +464,10 @@ func runC16(c *eng.Ctx) {
 	unit := 0
 	// ---- F1: leaf renderings ----
 	if c.Want("f", 1) {
-		paths := [][]string{{"a"}, {"a", "b"}, {"a", "0", "c"}, {"a", "b c"}, {"a/b", "é"}, {"a", "x.y", ""}}
-		litsF1 := []string{"1", "-1.5", "abc", "a b", "", "/a/b", "a.b", "true", "0x1f", "é\"", "`"}
+		paths := [][]string{{"a"}, {"a", "b"}, {"a", "0", "c"}, {"a", "b c"}, {"a/b", "é"}, {"a", "x.y", ""},
+			// identifiers that start with (or are) a keyword must stay identifiers
+			{"notes"}, {"android", "order"}, {"inside", "isempty", "0"}, {"anyone", "allow"}, {"ask", "matchesx"}, {"containsx", "emptyx", "nota"}}
+		litsF1 := []string{"1", "-1.5", "abc", "a b", "", "/a/b", "a.b", "true", "0x1f", "é\"", "`", "nothing", "ore", "andy", "a.0", "notes.b.1", "x/y"}
 		for op := 0; op < 8; op++ {
 			for _, path := range paths {
 				for _, lit := range litsF1 {
